@@ -97,7 +97,8 @@ func (w *world) mutate(m *model.Ledger, t model.Txn, k int) model.Txn {
 	case mutRecidPlus4:
 		x.Sigs[tp.Int("mut-sig-i", len(x.Sigs))][64] += 4
 	case mutRecidFlip:
-		x.Sigs[tp.Int("mut-sig-i", len(x.Sigs))][64] ^= 1
+		// bit 0 selects the other candidate key, bit 1 says "r overflowed the group order" (practically never true)
+		x.Sigs[tp.Int("mut-sig-i", len(x.Sigs))][64] ^= []byte{1, 2, 3}[tp.Pick("mut-recid-bits", 2, 2, 1)]
 	case mutGarbageSig:
 		i := tp.Int("mut-sig-i", len(x.Sigs))
 		copy(x.Sigs[i][:], tp.Bytes("mut-sig-bytes", 65))
@@ -105,10 +106,22 @@ func (w *world) mutate(m *model.Ledger, t model.Txn, k int) model.Txn {
 			x.Sigs[i][64] &= 3
 		}
 	case mutBadLength:
-		x.Length += 1 + uint32(tp.Draw("mut-len", 3))
+		x.Length = []uint32{x.Length + 1 + uint32(tp.Draw("mut-len", 3)), x.Length - 1, 0, 1, 0xffffffff}[tp.Pick("mut-len-kind", 3, 1, 2, 1, 1)]
 	case mutBadType:
 		x.Type = 1 + uint8(tp.Draw("mut-type", 255))
 	case mutBadInner:
+		if tp.Bool("mut-inner-of-confirmed") && len(m.Chain) > 1 {
+			// the inner-hash field of a transaction the chain already holds (one every node has verified before) on a
+			// transaction with other inputs; optionally the outputs are inflated as well - nothing is signed again
+			b := &m.Chain[1+tp.Int("mut-inner-block", len(m.Chain)-1)]
+			if len(b.Txns) > 0 {
+				x.Inner = b.Txns[tp.Int("mut-inner-txn", len(b.Txns))].Inner
+				if tp.Bool("mut-inner-inflate") {
+					x.Out[0].Coins += 1 + tp.Draw("mut-coins", 1000)*1000000
+				}
+				break
+			}
+		}
 		x.Inner[tp.Int("mut-inner-byte", 32)] ^= 1 << tp.Draw("mut-inner-bit", 8)
 	case mutUnknownInput:
 		if tp.Bool("mut-spent-input") && len(m.Spent) > 0 {
@@ -220,6 +233,7 @@ const (
 	bmTime
 	bmTimeEqual
 	bmTimeHuge
+	bmTimeHalf
 	bmSeq
 	bmFee
 	bmPrev
@@ -241,7 +255,7 @@ const (
 	bmCount
 )
 
-var bmNames = [...]string{"none", "version", "time-low", "time-equal", "time-huge", "seq", "fee", "prev", "body", "uxhash", "sig-other-key",
+var bmNames = [...]string{"none", "version", "time-low", "time-equal", "time-huge", "time-plus-2^63", "seq", "fee", "prev", "body", "uxhash", "sig-other-key",
 	"sig-flip", "sig-high-s", "sig-recid", "sig-null", "drop-txn", "dup-txn", "reorder-txns", "mutate-txn", "append-txn",
 	"second-genesis", "old-block", "empty"}
 
